@@ -51,6 +51,14 @@ CHECKS = {
          "Decode(Encode(v)) within half a unit of the last digit, normal form of Encode output, all documented input forms (98 grammar production classes) with their meaning, rejection of malformed strings with untouched outputs, GeoCoords representations re-read to the same position/zone, tools: one output line per input line, ERROR marking and exit status.",
          "The reference acceptor marks forms the header leaves unspecified as UNSPEC (not judged). Fuzz campaigns are approximately reproducible; artifacts are the reproducible unit.",
          "DESIGN.md section 3/C10"),
+ "C13": ("rapidcheck + libFuzzer (ASan/UBSan)", "registry-driven property testing of ~490 public entry points under ASan+UBSan in a persistent worker process: constructor validation, executable NaN-dependence contract, throw safety with sentinels, complete single-argument special-value sweep plus random pairs/triples with hang detection; coverage-guided fuzzing of all parsers and of geoid/magnetic/gravity/coefficient/nearest-neighbour data files (structure-aware and raw)",
+         "Every registry row is called with NaN, infinities, signed zeros, denormals, huge values and angle edge values in every argument position; outputs that move when an argument is varied must be NaN when it is NaN; validating functions may only throw GeographicErr/bad_alloc and must leave outputs untouched; data-file loaders must reject or load corrupt files without UB.",
+         "UB that no sanitizer instruments (e.g. toupper of a negative char) and hangs shorter than the stall limit are out of reach. An output that no probe moved may become NaN (0 x NaN) without failing; it fails only if it changes to a different number.",
+         "DESIGN.md section 3/C13"),
+ "C14": ("generated concurrent workloads under ThreadSanitizer", "seed-determined multi-threaded workloads (2-16 threads, const calls on shared singletons first touched after a start barrier, fresh shared solver/projection/model objects, thread-safe Geoid) run under ThreadSanitizer; every call's outputs are hashed and compared bit for bit with the same workload executed sequentially",
+         "Data races are detected by TSan's happens-before analysis (largely schedule independent); value corruption shows as a hash difference against the solo run. 1500 workloads (quick), 6000 incl. sched_yield storms (thorough), one fresh process each.",
+         "Interleavings are not enumerated: a corruption that needs one precise schedule and involves no detectable race is not decided. Objects documented as not thread-safe are not shared.",
+         "DESIGN.md section 3/C14"),
  "C01": ("rapidcheck", "property-based testing against an independent long-double geodesic-ODE reference; differential across 8 solver/line configurations; metamorphic reversal",
          "Generated-input exploration: every generated direct problem is compared with a reference that integrates the geodesic equation itself (no series, no auxiliary sphere), to 2x the documented accuracy for the flattening. Exploration is the right level: the property quantifies over a continuum of inputs and an executable oracle exists.",
          "Trusts: the reference ODE integrator (self-checked per case by step halving, constraint projection), x87 long double, the tolerance formulas of DESIGN section 2 (2x documented accuracy, scaled by length in quarter circuits). Errors below the documented accuracy are not violations.",
@@ -66,7 +74,7 @@ for p in props:
         checks.append(dict(property_id=pid, quick_cmd="python3 check.py %s --tier quick" % pid,
                            thorough_cmd="python3 check.py %s --tier thorough" % pid,
                            evidence_file="evidence/%s.json" % pid,
-                           replay_cmd_template="python3 check.py %s --replay {path}" % pid,
+                           replay_cmd_template=("python3 units/c14_tsan.py --replay {path}" if pid == "C14" else "python3 check.py %s --replay {path}" % pid),
                            engine=eng, technique=tech,
                            level_claimed=dict(category="exploration", text=text, design_ref=ref), level_note=note))
     else:
